@@ -177,6 +177,9 @@ def shard(ctx):
             ctx.count("eof_family_cases")
             if cut % 3 == 0:
                 judge(ctx, {"input": pre, "frag": True, "container": ("div", "title", "script", "svg", "table", "select")[cut % 6]})
+    for q in gen.token_sequences(ctx, 3, 4, 0.4):
+        judge(ctx, {"input": q, "frag": False})
+        ctx.count("sequence_cases")
     n, idx = 0, ctx.i
     limit = (60000 if ctx.tier == "quick" else 4000000) // ctx.n
     t_end = time.time() + ctx.time_left()
@@ -212,6 +215,8 @@ def replay(ctx, case):
 
 
 def finalize(m, v):
+    from .. import gen as _gen
+    _gen.sequences_inconclusive(m)
     c = m["counters"]
     seen = m["sets"].get("codes_seen", set())
     if len(seen) < 95:
